@@ -151,6 +151,52 @@ def targets(ctx):
             for path in ("dict", "json", "to_json"):
                 for form in ("class", "instance"):
                     yield {"hand": True, "casing": casing, "path": path, "form": form}
+                    for k in NOZERO_VALUES:
+                        yield {"nozero": k, "casing": casing, "path": path, "form": form}
+
+    # a hand-written (or proto2-generated) enum WITHOUT a zero member: the number 0 - the default, and a number the enum
+    # does not define - in every position
+    def nozero_classes():
+        if "NoZero" not in _hand:
+            import dataclasses
+            from typing import Dict, List, Optional
+
+            class Level(betterproto.Enum):
+                LOW = 1
+                HIGH = 2
+                NEG = -3
+
+            _hand["Level"] = Level
+            _hand["NoZero"] = dataclasses.make_dataclass("NoZero", [
+                ("one", Level, betterproto.enum_field(1)), ("maybe", Optional[Level], betterproto.enum_field(2, optional=True)), ("many", List[Level], betterproto.enum_field(3)),
+                ("by_name", Dict[str, Level], betterproto.map_field(4, "string", "enum")), ("pick_level", Level, betterproto.enum_field(5, group="pick")),
+                ("pick_text", str, betterproto.string_field(6, group="pick")),
+            ], bases=(betterproto.Message,), eq=False, repr=False)
+        return _hand["Level"], _hand["NoZero"]
+
+    NOZERO_VALUES = {
+        "single": lambda L: {"one": L.try_value(0)}, "single_named": lambda L: {"one": L.HIGH}, "optional": lambda L: {"maybe": L.try_value(0)}, "optional_int": lambda L: {"maybe": 0},
+        "repeated": lambda L: {"many": [L.LOW, L.try_value(0), L.NEG, L.try_value(7)]}, "repeated_ints": lambda L: {"many": [0, 2, 0]},
+        "map": lambda L: {"by_name": {"a": L.try_value(0), "b": L.HIGH, "": L.try_value(9)}}, "oneof": lambda L: {"pick_level": L.try_value(0)}, "oneof_int": lambda L: {"pick_level": 0},
+        "all": lambda L: {"one": L.NEG, "maybe": L.try_value(0), "many": [L.try_value(0)], "by_name": {"z": L.try_value(0)}, "pick_level": L.try_value(0)},
+    }
+
+    def nozero_ev(case):
+        Level, NoZero = nozero_classes()
+        fails = []
+        try:
+            m = guard("construct", lambda: NoZero(**NOZERO_VALUES[case["nozero"]](Level)))
+            if case["path"] == "to_json":
+                m2 = guard("from_json", NoZero().from_json, guard("to_json", m.to_json, casing=CAS[case["casing"]]))
+            else:
+                d = guard("to_dict", m.to_dict, CAS[case["casing"]])
+                d2 = guard("json_dumps", lambda: json.loads(json.dumps(d))) if case["path"] == "json" else d
+                m2 = guard("from_dict", NoZero.from_dict if case["form"] == "class" else NoZero().from_dict, d2)
+            if m2 != m or bytes(m2) != bytes(m):
+                fails.append(Failure("enum_without_zero_roundtrip", f"enum_without_zero|roundtrip|{case['nozero']}", f"case={case!r}: {m2!r:.300} vs {m!r:.300}; bytes {bytes(m2).hex()} vs {bytes(m).hex()}"))
+        except Guarded as g:
+            fails.append(Failure(f"raises_{g.where}", f"enum_without_zero|raises_{g.where}_{type(g.exc).__name__}|{case['nozero']}", str(g)))
+        return Eval(fails, nontrivial=True, labels=["enum_without_zero", f"casing:{case['casing']}"])
 
     _hand = {}
 
@@ -172,6 +218,8 @@ def targets(ctx):
         return _hand["Inner"], _hand["Outer"]
 
     def hand_ev(case):
+        if "nozero" in case:
+            return nozero_ev(case)
         Inner, Outer = hand_classes()
         m = Outer(userID="u", sessionToken=b"\x00\xff", retry__count=3, tags=["a", ""], HTTPStatus=2**63, x_y_z=1.5, address_line_1="x",
                   subItem=Inner(innerValue=-(2**62), HTTPCode=404), byName={"k": Inner(HTTPCode=1)}, manyItems=[Inner(innerValue=1), Inner()], maybeFlag=False,
